@@ -354,6 +354,7 @@ func (g *Gen) applyContract(v ssa.Value, ct *Contract, key string, c *ssa.CallCo
 			}
 		}
 		g.stHavoc(st, n, so)
+		g.recordWrite(n, nil)
 	}
 	// results
 	ts := g.havocResults(v, c, st)
@@ -486,6 +487,7 @@ func (g *Gen) execAppend(v ssa.Value, c *ssa.CallCommon, in ssa.Instruction, st 
 		app("mkslice", id, "0", newLen, ncap))
 	// appending nothing to a nil slice yields nil
 	res = app("ite", and(app("=", tLen, "0"), app("=", app("s_obj", s.S), "0")), "nil_slice", res)
+	g.recordWrite(hn, c.Args[0])
 	g.stSet(st, hn, hso, app("ite", fits, app("store", h, app("s_obj", s.S), inPlace), app("store", h, id, f2)))
 	g.setVal(v, res)
 	g.safety("alloc", "append: resulting length within the allocation limit", in.Pos(), reach, app("<=", newLen, "281474976710656"))
@@ -512,6 +514,7 @@ func (g *Gen) execCopy(v ssa.Value, c *ssa.CallCommon, in ssa.Instruction, st St
 	}
 	n := g.define("copy.n", SMath, app("imin", app("s_len", d.S), sLen))
 	na := g.rangeCopy(el, app("select", h, app("s_obj", d.S)), app("s_off", d.S), sArr, sOff, n)
+	g.recordWrite(hn, c.Args[0])
 	g.stSet(st, hn, hso, app("ite", app(">", n, "0"), app("store", h, app("s_obj", d.S), na), h))
 	if v != nil {
 		g.setVal(v, n)
